@@ -57,6 +57,9 @@ func newC11Cast() *c11Cast {
 	return c
 }
 
+// c11AfterEvent, when set, is called after every completed event (C20 re-uses this runner for its residue invariant).
+var c11AfterEvent func(dir, event string)
+
 var c11Events = []string{"set(down)", "set(badsig{r})", "set(parsefail{r})", "set(critext{r})", "set(good{a})", "set(good{})", "probe-all", "tick", "bgfetch-completes", "restart"}
 
 func (c *c11Cast) run(cfg c11Cfg, hist []int) (out c10Run) {
@@ -190,6 +193,9 @@ func (c *c11Cast) run(cfg c11Cfg, hist []int) (out c10Run) {
 				known, loaded, inForce = false, false, nil
 				w = mk()
 				vsched.SetHoldSpawns(true)
+			}
+			if c11AfterEvent != nil && len(vsched.Held()) == 0 {
+				c11AfterEvent(dir, name)
 			}
 		}
 		var ents []string
